@@ -67,6 +67,13 @@ func (self ValueAnyObject) Fields() (map[string]*Value, *VmInterrupt) {
 		}),
 		"get_type": NewValueBuiltinFunction(func(executor Executor, cancelCtx *context.Context, span errors.Span, args ...Value) (*Value, *VmInterrupt) {
 			value := self.FieldsInternal[args[0].(ValueString).Inner]
+			if value == nil {
+				return nil, NewVMFatalException(
+					fmt.Sprintf("Value of type 'any-object' has no field named '%s'", args[0].(ValueString).Inner),
+					Vm_IndexOutOfBoundsErrorKind,
+					span,
+				)
+			}
 			return NewValueString((*value).Kind().TypeKind().String()), nil
 		}),
 		"keys": NewValueBuiltinFunction(func(executor Executor, cancelCtx *context.Context, span errors.Span, args ...Value) (*Value, *VmInterrupt) {
